@@ -137,6 +137,47 @@ fn cases() -> Vec<Case> {
     out
 }
 
+/// Headers of 65..=130 columns: an X or Z entry keeps its kind and a number is reduced to its own
+/// signal's width in whatever column it stands (column j and column j +- 64 are different columns).
+fn wide_header_cases(deadline: &Deadline) -> Stats {
+    let ns = [65usize, 66, 70, 100, 130];
+    par_range("headers of 65, 66, 70, 100, 130 columns x {inputs first, outputs first, alternating} : X / Z / out-of-range numbers in every column", ns.len() as u64 * 3, deadline, |idx, st| {
+        let n = ns[(idx / 3) as usize];
+        let arrangement = idx % 3;
+        let is_in = |j: usize| match arrangement {
+            0 => j < n / 2,
+            1 => j >= n / 2,
+            _ => j % 2 == 0,
+        };
+        let sigs: Vec<Sig> = (0..n).map(|j| if is_in(j) { Sig::inp(&format!("S{j}"), 1 + j % 5, 0) } else { Sig::out(&format!("S{j}"), 1 + j % 7) }).collect();
+        let header: Vec<String> = (0..n).map(|j| format!("S{j}")).collect();
+        let mut body = vec![];
+        // row 1: out-of-range numbers everywhere; row 2: Z on inputs, X on outputs; row 3: numbers on
+        // inputs, Z on outputs; rows 4..: X in one expected column at a time (64 columns from an input)
+        body.push(Stmt::Row((0..n).map(|j| Entry::Lit(1000 + j as i64, Radix::Dec)).collect()));
+        body.push(Stmt::Row((0..n).map(|j| if is_in(j) { Entry::Z } else { Entry::X }).collect()));
+        body.push(Stmt::Row((0..n).map(|j| if is_in(j) { Entry::Lit(0x7f, Radix::Hex) } else { Entry::Z }).collect()));
+        for x in (0..n).filter(|j| !is_in(*j)).filter(|j| (*j >= 64 && is_in(j - 64)) || (j + 64 < n && is_in(j + 64))).take(6) {
+            body.push(Stmt::Row((0..n).map(|j| if j == x { Entry::X } else { Entry::Lit(j as i64, Radix::Dec) }).collect()));
+        }
+        let prog = Program { header, body };
+        let text = text(&prog);
+        let script = vec![Step::Ans(sigs.iter().filter(|s| s.is_out()).map(|s| (s.name.clone(), V::Num(1))).collect())];
+        let r = ref_run_fuel(&prog, &sigs, &script, 100_000, 40);
+        assert!(r.end == RefEnd::Done, "C07 wide header case does not finish in the reference: {:?}", r.end);
+        st.evals += 1;
+        st.nontrivial += 1;
+        st.witness("header_wider_than_64_columns");
+        let mut opts = RunOpts::new(r.items.len() + 1);
+        opts.repeat_last = true;
+        let obs = run_dynamic(&text, &sigs, true, &script, &opts);
+        let proj = Proj { input_values: true, expected: true, output: false, checked_kind: true, lines: false, vars: false, verdicts: false };
+        if let Some((k, m)) = run_mismatch(&r, &obs, proj, None) {
+            st.violation(&format!("wide header: {}", classify(&m)), (13 << 40) + idx, format!("{n} columns, arrangement {arrangement}\nfirst difference at {m} (item {k})"), || dyn_replay(&text, &sigs, true, &script, &opts, ref_items_brief(&r).into_iter().take(k + 2).collect(), &obs, &m));
+        }
+    })
+}
+
 pub fn run(tier: Tier, seed: u64) -> i32 {
     let started = Instant::now();
     let deadline = Deadline::new(tier.wall_cap());
@@ -212,6 +253,10 @@ pub fn run(tier: Tier, seed: u64) -> i32 {
         let _ = failing_at;
         // Z and X pass through unchanged
         let bound = bind(&header, &case.sigs, &if case.declare_v { vec![("V".to_string(), lit(0))] } else { vec![] });
+        // (variables that happen to be called like the letters do not change what the letters mean)
+        for (n, v) in [("X", 300), ("Z", 7), ("x", 2), ("z", 1)] {
+            body.push(Stmt::Let(n.into(), lit(v)));
+        }
         body.push(Stmt::Row(with_prefix((0..ncol).map(|_| Entry::Z).collect())));
         body.push(Stmt::Row(with_prefix((0..ncol).map(|j| if bound.input_col[j + case.bits_prefix] { Entry::Z } else { Entry::X }).collect())));
         script.push(Step::Ans(ans(0)));
@@ -345,5 +390,6 @@ pub fn run(tier: Tier, seed: u64) -> i32 {
         e1: false,
     };
     st.merge(crate::props::c13::api_use_part(&deadline));
+    st.merge(wide_header_cases(&deadline));
     finish(meta, st, started)
 }
